@@ -160,16 +160,10 @@ def execute(rec):
         if "p" in op and op["p"] >= len(w.parties):
             continue
         kind = op["op"]
-        witness = False
-        if kind in ("randomize", "rw"):
-            # if the state the object is in already satisfies every enforced constraint, the system
-            # is satisfiable (the state itself is a witness): the call must not fail
-            try:
-                pre = w.tree(op["p"])
-                witness = refsem.check_tree(P, w.parties[op["p"]].cname, pre, w.parties[op["p"]].modes,
-                                            w.parties[op["p"]].rangelists, op.get("inline")) is None
-            except refsem.RefError:
-                witness = False
+        # if the state the object is in already satisfies every enforced constraint, the system
+        # is satisfiable (the state itself is a witness): the call must not fail
+        witness = w.witness(op)
+        pre = w.tree(op["p"]) if witness else None
         out = w.apply(op)
         if kind == "assign" and op.get("nrsub"):
             stats["nonrand_sub_assigns"] += 1
